@@ -399,8 +399,8 @@ def programs(thorough, seed):
                           dict(condition='t>0.5', pre=True, post=True),
                           dict(condition='never', post=True,
                                update_nnps=True),
-                          dict(iterate=True, min_iterations=1,
-                               max_iterations=2, pre=True, post=True,
+                          dict(iterate=True, min_iterations=2,
+                               max_iterations=3, pre=True, post=True,
                                update_nnps=True)):
                 parent = group_spec(subgroups=[s1, s2], **outer)
                 progs.append([parent, probe])
